@@ -1,6 +1,7 @@
 #!/bin/sh
 # usage: tools/rundiff.sh <suite> [tier] [seed]  — developer helper: run one suite and show differences
 cd "$(dirname "$0")/.."
+if [ -z "$VERIF_REPO_LOCKED" ]; then exec env VERIF_REPO_LOCKED=1 flock /tmp/verif-repo.lock "$0" "$@"; fi
 export GOFLAGS=-mod=mod GOPROXY=off GOSUMDB=off GOTOOLCHAIN=local
 (cd harness && CGO_ENABLED=0 go build -tags verif -o ../.build/verifharness .) || exit 1
 mkdir -p .build/t
